@@ -45,10 +45,20 @@ def gate_case(chk, case, store):
     d = int(np.prod(sys))
     Gh = coords.rmat(case["G"])
     hs = coords.hs_from_h(sys, Gh)
-    choi = cmat(case["choi"])
     hsrow = cmat(case["hsrow"])
     hscol = cmat(case["hscol"])
-    proc = cmat(case["process"])
+    # numpy transcription of QConv!ChoiReshuffle / ProcessMatrix; on the systems where TLC evaluates the
+    # definitions itself the transcription is checked against TLC's values, on "light" systems it supplies them
+    h4 = hsrow.reshape(d, d, d, d)                       # [i, j, k, l] = HS[(i,j),(k,l)]
+    choi_np = h4.transpose(0, 2, 1, 3).reshape(d * d, d * d)   # Choi[(i,k),(j,l)] = HS[(i,j),(k,l)]
+    proc_np = h4.transpose(0, 2, 1, 3).reshape(d * d, d * d)   # chi[(i,j),(k,l)] = HS[(i,k),(j,l)]
+    if case["choi"]:
+        choi = cmat(case["choi"])
+        proc = cmat(case["process"])
+        if not np.allclose(choi, choi_np, rtol=0, atol=1e-12) or not np.allclose(proc, proc_np, rtol=0, atol=1e-12):
+            raise core.MachineryError("numpy transcription of the Choi / process-matrix re-indexing disagrees with the specification")
+    else:
+        choi, proc = choi_np, proc_np
     nz = np.argwhere(Gh != 0)
     tag = "sys%s:%s" % ("x".join(map(str, sys)), "hot%d_%d" % tuple(nz[0]) if len(nz) == 1 else "dense")
     sk = "x".join(map(str, sys))
@@ -208,8 +218,12 @@ def truncate_hs_cases(chk):
 def run(chk):
     t = chk.tier
     r = chk.tlc("mc/MC_C02", "mc/MC_C02_%s.cfg" % t, workers=16, label="MC_C02 " + t, timeout=7000)
+    emitted = list(r.emitted)
+    if t == "quick":
+        # two-qubit supplement (computational-basis forms only; Choi / process matrix of two-qubit maps: thorough tier)
+        emitted += chk.tlc("mc/MC_C02_qq", "mc/MC_C02_qq.cfg", workers=8, label="MC_C02_qq").emitted
     store = {}
-    for i, case in enumerate(r.emitted):
+    for i, case in enumerate(emitted):
         if case["kind"] == "gate":
             gate_case(chk, case, store)
         elif case["kind"] == "vec":
